@@ -208,7 +208,19 @@ def same_name_kinds(ctx):
                     idents = {u[1].upper() for u in used if not u[1].upper().startswith("TMP_")}
                     want = len(set(order))
                     missing = [u[1] for u in used if u[0] == "idx" and (decls.get(u[1].upper()) is None or decls[u[1].upper()][0] is None)]
-                    if len(idents) < want:
+                    uninit = []
+                    if kw.get("initialize_vars"):
+                        # the book-keeping of the passes must keep the kinds apart too: a scalar is pre-initialised
+                        # whether or not an array of the same name exists
+                        head = o[1].split("\n10 ")[0] if "\n10 " in o[1] else ""
+                        for k in order:
+                            if k in ("num", "str"):
+                                ident = name[:2] + ("$" if k == "str" else "")
+                                if not re.search(r"(?m)(^|\\ )\s*" + re.escape(ident) + r" := (0\.0|\"\")", head):
+                                    uninit.append(ident)
+                    if uninit:
+                        ctx.violation(f"kinds-scalar-not-initialised:{'/'.join(order)}:{'dim-' + dimmed if dimmed else 'implicit'}", f"{src!r} {kw}: scalar {uninit} is not pre-initialised although only the array of that name is declared", {"source": src})
+                    elif len(idents) < want:
                         ctx.violation(f"kinds-alias:{'/'.join(order)}", f"{src!r} {kw}: {want} different variables but identifiers {sorted(idents)}", {"template": None, "source": src})
                     elif missing:
                         ctx.violation(f"kinds-array-undeclared:{'/'.join(order)}:{'dim-' + dimmed if dimmed else 'implicit'}", f"{src!r} {kw}: {sorted(set(missing))} subscripted but not declared as an array", {"source": src})
